@@ -21,8 +21,8 @@ _IP_VALUE_OPERATORS = ("=", "!=", "ISSUBSET", "ISSUPERSET")
 # Plain dotted-decimal IPv4 addresses and decimal prefix sizes only: the
 # platform's functions and int() also accept shorthand, octal, hex, signed or
 # padded forms, which are different strings rather than the same address.
-_IPV4_RE = re.compile(r"^(\d{1,3})\.(\d{1,3})\.(\d{1,3})\.(\d{1,3})$", re.ASCII)
-_PREFIX_SIZE_RE = re.compile(r"^\d{1,3}$", re.ASCII)
+_IPV4_RE = re.compile(r"^(\d{1,3})\.(\d{1,3})\.(\d{1,3})\.(\d{1,3})\Z", re.ASCII)
+_PREFIX_SIZE_RE = re.compile(r"^\d{1,3}\Z", re.ASCII)
 
 
 def _path_is(object_path, path_pattern):
